@@ -7,9 +7,11 @@ import (
 	"path/filepath"
 	"sort"
 	"strings"
+	"time"
 
 	"github.com/MichaelMure/git-bug/cache"
 	"github.com/MichaelMure/git-bug/entities/bug"
+	"github.com/MichaelMure/git-bug/entities/identity"
 	"github.com/MichaelMure/git-bug/entity"
 	"github.com/MichaelMure/git-bug/query"
 	"github.com/MichaelMure/git-bug/repository"
@@ -112,7 +114,13 @@ func served(rc *cache.RepoCache, tokens []string) map[string]any {
 			iex = append(iex, map[string]any{"id": string(id), "err": err.Error()})
 			continue
 		}
-		iex = append(iex, map[string]any{"id": string(id), "name": e.Name, "login": e.Login})
+		m := map[string]any{"id": string(id), "name": e.Name, "login": e.Login}
+		if ic, err := rc.Identities().Resolve(id); err != nil {
+			m["resolve-err"] = err.Error()
+		} else {
+			m["resolved"] = map[string]any{"name": ic.Name(), "email": ic.Email(), "login": ic.Login(), "keys": len(ic.Keys()), "needCommit": ic.NeedCommit()}
+		}
+		iex = append(iex, m)
 	}
 	out["identities"] = iex
 	out["labels"] = labelsStr(rc.Bugs().ValidLabels())
@@ -228,6 +236,27 @@ func runC11(c *runCtx) {
 			users[0].rc.Push("origin")
 			users[1].pull()
 			log = append(log, "A:new(shared)", "A:push", "B:pull")
+			// and in every session: A's identity, known to B, grows by two versions before B pulls again
+			if me, err := users[0].rc.GetUserIdentity(); err == nil {
+				for k := 0; k < 2; k++ {
+					tag := randHexId(r, 3)
+					if err := me.Mutate(users[0].repo, func(m *identity.Mutator) { m.Name = fmt.Sprintf("user A w%d%s", k, tag) }); err != nil {
+						panic(err)
+					}
+					if err := me.Commit(); err != nil {
+						panic(fmt.Sprintf("session %d k=%d tag=%s name=%q need=%v: %v", si, k, tag, me.Name(), me.NeedCommit(), err))
+					}
+				}
+				users[0].rc.Push("origin")
+				users[1].pull()
+				log = append(log, "A:identity(2)", "A:push", "B:pull")
+				live := served(users[1].rc, tokens)
+				if re, err := rebuilt(users[1], tokens); err == nil {
+					if d := diffServed(live, re); d != "" {
+						c.violation(-1, "C11/incoherent", fmt.Sprintf("after %v the live cache of B differs from a rebuilt one: %s", log, d), nil)
+					}
+				}
+			}
 		}
 		for st := 0; st < steps; st++ {
 			u := pickOne(r, users)
@@ -309,6 +338,27 @@ func runC11(c *runCtx) {
 					act = "title(" + b.Id().Human() + ")"
 					u.act("commit", string(b.Id()))
 				}
+			case x < 13 && r.chance(1, 3):
+				// the user's own identity changes, by one to three versions (a pull on the other side then
+				// has to fast-forward over several versions at once)
+				if me, err := u.rc.GetUserIdentity(); err == nil {
+					n := r.rangeInt(1, 3)
+					for k := 0; k < n; k++ {
+						tag := randHexId(r, 3)
+						if err := me.Mutate(u.repo, func(m *identity.Mutator) {
+							m.Name = fmt.Sprintf("user %s v%d%s", u.name, k, tag)
+							if r.chance(1, 2) {
+								m.Email = u.name + tag + "@example.com"
+							}
+						}); err != nil {
+							panic(err)
+						}
+						if err := me.Commit(); err != nil {
+							panic(err)
+						}
+					}
+					act = fmt.Sprintf("identity(%d)", n)
+				}
 			case x < 13:
 				if _, err := u.rc.Push("origin"); err != nil {
 					act = "push!"
@@ -373,6 +423,90 @@ func runC11(c *runCtx) {
 		remote.Close()
 		cleanupScratch()
 	}
+	for k := 0; k < c.pick(2, 10); k++ {
+		c11AbortedPull(c, c.rng.fork())
+		cleanupScratch()
+	}
 	c.extra["note"] = "every action is followed by a comparison of the live cache with a cache rebuilt from a copy of the git data"
 	_ = entity.Id("")
+}
+
+// c11AbortedPull: RepoCache.Pull gives up at the first refused remote entity; what it had merged before
+// is in git and in the index, the excerpt file is not written.  After close and reopen the cache must
+// still serve what a rebuild serves (the load-or-rebuild heuristic has to notice).
+func c11AbortedPull(c *runCtx, r *rng) {
+	remote, _ := newGoGit("c11remote", true)
+	defer remote.Close()
+	var users []*c11User
+	for _, n := range []string{"A", "B"} {
+		repo, dir := newGoGit("c11"+n, false)
+		repo.AddRemote("origin", remote.GetLocalRemote())
+		u := &c11User{name: n, dir: dir, repo: repo}
+		u.rc = mustCache(repo)
+		iden, err := u.rc.Identities().New("user "+n, n+"@example.com")
+		if err != nil {
+			panic(err)
+		}
+		if err := u.rc.SetUserIdentity(iden); err != nil {
+			panic(err)
+		}
+		users = append(users, u)
+	}
+	A, B := users[0], users[1]
+	tok := "tokapq" + randHexId(r, 5)
+	tokens := []string{tok}
+	if _, _, err := B.rc.Bugs().New("bug zz9 local of B", "nothing special"); err != nil {
+		panic(err)
+	}
+	var ids []string
+	for i := 0; i < r.rangeInt(4, 7); i++ {
+		b, _, err := A.rc.Bugs().New("bug zz9 "+tok+" "+pickOne(r, titlePool[:3]), "body")
+		if err != nil {
+			panic(err)
+		}
+		ids = append(ids, string(b.Id()))
+	}
+	sort.Strings(ids)
+	// a ref whose name is a well-formed id that is not the id of its content, sorting right after the first bug
+	bogus := ids[0][:len(ids[0])-1] + "z"
+	if ids[0][len(ids[0])-1] == 'z' {
+		return
+	}
+	if err := A.repo.CopyRef("refs/bugs/"+ids[0], "refs/bugs/"+bogus); err != nil {
+		panic(err)
+	}
+	if _, err := A.rc.Push("origin"); err != nil {
+		panic(err)
+	}
+	log := []string{"B:new", fmt.Sprintf("A:new x%d", len(ids)), "A:(ref named after another id)", "A:push", "B:Pull (gives up at the refused entity)"}
+	c.context(strings.Join(log, " "))
+	perr := B.rc.Pull("origin")
+	c.count(fmt.Sprintf("aborted-pull/error=%v", perr != nil))
+	// the pull has returned early, what remains of the merge is asynchronous: let it settle
+	last, stable := -1, 0
+	for i := 0; i < 150 && stable < 10; i++ {
+		time.Sleep(20 * time.Millisecond)
+		n := len(B.rc.Bugs().AllIds())
+		if n == last {
+			stable++
+		} else {
+			last, stable = n, 0
+		}
+	}
+	c.count(fmt.Sprintf("aborted-pull/bugs-served-before-close=%d", min(last, 9)))
+	B.rc.Close()
+	B.repo.Close()
+	B.open()
+	log = append(log, "B:close", "B:reopen")
+	live := served(B.rc, tokens)
+	re, err := rebuilt(B, tokens)
+	if err != nil {
+		c.violation(-1, "C11/rebuild-failed", fmt.Sprintf("a cache cannot be rebuilt from the git data: %v; session %v", err, log), nil)
+	} else if d := diffServed(live, re); d != "" {
+		c.violation(-1, "C11/incoherent", fmt.Sprintf("after %v the reopened cache of B differs from a rebuilt one: %s", log, d), nil)
+	}
+	for _, u := range users {
+		u.rc.Close()
+		u.repo.Close()
+	}
 }
